@@ -1,0 +1,39 @@
+//go:build verif
+
+package query
+
+// Verification hooks for C06/C07 (query parser). Thin wrappers around unexported functions; not part of the
+// normal build.
+
+// VerifToken is the exported view of a parser token.
+type VerifToken struct {
+	Type  int
+	Text  []byte
+	Input []byte
+}
+
+// VerifNextToken calls nextToken. ok is false when nextToken returned a nil token.
+func VerifNextToken(in []byte) (tok VerifToken, ok bool, err error) {
+	t, err := nextToken(in)
+	if err != nil || t == nil {
+		return VerifToken{}, false, err
+	}
+	return VerifToken{Type: t.Type, Text: t.Text, Input: t.Input}, true, nil
+}
+
+// VerifParseStringLiteral calls parseStringLiteral (in must start with the opening quote).
+func VerifParseStringLiteral(in []byte) (lit []byte, n int, err error) {
+	return parseStringLiteral(in)
+}
+
+// VerifCaseFlavor reports whether q is the parse-time *caseQ node, and its flavor.
+func VerifCaseFlavor(q Q) (string, bool) {
+	c, ok := q.(*caseQ)
+	if !ok {
+		return "", false
+	}
+	return c.Flavor, true
+}
+
+// VerifRegexpFlags is the flag set RegexpQuery parses atoms with.
+const VerifRegexpFlags = regexpFlags
